@@ -280,6 +280,8 @@ pub mod endpoint;
 pub mod metrics;
 mod net_report;
 pub mod protocol;
+#[cfg(iroh_verif)]
+pub mod verif;
 
 pub use endpoint::{Endpoint, RelayMode};
 pub use iroh_base::{
